@@ -173,21 +173,39 @@ pub fn split(
     let chunks = cut(rng, &body, k);
     let mut out = Vec::new();
     for (n, ch) in chunks.iter().enumerate() {
+        // the framing layout of the spec is parametric in (total, number); the exported instances cover 1..4, larger
+        // replies reuse the instance of the same position class with the two literal bytes replaced
+        let (lk, ln) = if k <= 4 { (k, n) } else { (4, if n == 0 { 0 } else { 1 }) };
         let lay = ctx
             .layouts
             .of("valve", if gold { "frag_goldsrc" } else { "frag_source" })
             .into_iter()
             .find(|l| {
                 let s = &l["shape"];
-                s["total"] == k as u64
-                    && s["number"] == n as u64
+                s["total"] == lk as u64
+                    && s["number"] == ln as u64
                     && (gold || (s["sized"] == sized && s["compressed"] == compressed))
             })
             .expect("frag layout");
         let mut d = Vec::new();
+        let mut lit_no = 0;
         for it in lay["layout"]["items"].as_array().unwrap() {
             match it["k"].as_str().unwrap() {
-                "lit" => d.extend(it["b"].as_array().unwrap().iter().map(|x| x.as_u64().unwrap() as u8)),
+                "lit" if k > 4 && lit_no >= 1 => {
+                    // literal 2 = total (Source) or number<<4|total (GoldSrc); literal 3 = number (Source)
+                    lit_no += 1;
+                    if gold {
+                        d.push(((n as u8) << 4) | (k as u8 & 0x0f));
+                    } else if lit_no == 2 {
+                        d.push(k as u8);
+                    } else {
+                        d.push(n as u8);
+                    }
+                }
+                "lit" => {
+                    lit_no += 1;
+                    d.extend(it["b"].as_array().unwrap().iter().map(|x| x.as_u64().unwrap() as u8))
+                }
                 "chunk" => d.extend(ch),
                 "f" => {
                     match it["f"].as_str().unwrap() {
@@ -654,6 +672,18 @@ fn one_layout_case(ctx: &Ctx, rng: &mut StdRng, lsec: &str, shape: &Value, tr: &
         // the split header has no size field for protocol 7 of app 240 (players / rules requests only: the
         // protocol number is known after info)
         let sized = !(proto7 && sec != "info");
+        // a conforming server keeps every datagram within an MTU-sized packet: a reply that does not fit in one is split,
+        // and into as many fragments as it takes
+        let need = (payload.len() + 1199) / 1200;
+        let (m, kk) = if need > 1 {
+            let m2 = if m == "single" { if goldsrc_split(&engine) { "goldsrc" } else { "source" } } else { m };
+            (m2, kk.max(need))
+        } else {
+            (m, kk)
+        };
+        if m == "goldsrc" && kk > 15 {
+            return; // the GoldSrc header counts at most 15 fragments
+        }
         let batch = match m {
             "single" => vec![payload.clone()],
             "source" => split(rng, ctx, &payload, kk, false, sized, false),
